@@ -18,7 +18,7 @@ from collections import Counter
 from fractions import Fraction
 
 from harness.core import fl, zl, nl, bl, ql, ll, optl, FLOAT_AXIOMS, REAL_AXIOMS, VERIF, translated_specs
-TRANSLATED = translated_specs("PopulationGen", "FindOptimumGen")      # regenerated from the source on every run (notes/TRANSLATOR.md)
+TRANSLATED = translated_specs("PopulationGen", "FindOptimumGen", "IndicatorsGen")      # regenerated from the source on every run (notes/TRANSLATOR.md)
 
 PROP = "C17"
 THEOREMS = {"Artap.Props.C17": [
